@@ -52,8 +52,9 @@ def extensions_closure(spec, installed):
 
 
 class Sys05(e1.System):
-    def __init__(self, annot):
+    def __init__(self, annot, transcripts=True):
         self.annot = annot
+        self.transcripts = transcripts
         self.res = universe.resources(annot)
         self.xml = {k: xmlw.serialize(r) for k, r in self.res.items()}
         self.reltypes = docgen.reltypes_of(*self.res.values())
@@ -133,6 +134,8 @@ class Sys05(e1.System):
         for t in observe.SHARED:
             C.pop(t, None)
         T = {}
+        if not self.transcripts:
+            return {'C': C, 'T': T}
         with warnings.catch_warnings():
             warnings.simplefilter('ignore')
             for s in inst:
@@ -216,13 +219,13 @@ def _strip_x(T):
     return T
 
 
-SYS = {False: None, True: None}
+SYS = {}
 
 
-def _sys(annot):
-    if SYS[annot] is None:
-        SYS[annot] = Sys05(annot)
-    return SYS[annot]
+def _sys(annot, transcripts=True):
+    if SYS.get((annot, transcripts)) is None:
+        SYS[(annot, transcripts)] = Sys05(annot, transcripts)
+    return SYS[(annot, transcripts)]
 
 
 def run(tier, seed, jobs=None):
@@ -231,12 +234,13 @@ def run(tier, seed, jobs=None):
     allV, vcount = [], {}
     plans = []
     if tier == 'quick':
-        plans = [(False, 'exact', 3, None), (False, 'coarse', None, None), (True, 'coarse', None, None)]
+        # U+ in the quick tier compares the table dumps only (the API transcripts are a function of them)
+        plans = [(False, 'exact', 3, None, True), (False, 'coarse', None, None, True), (True, 'coarse', None, None, False)]
     else:
-        plans = [(False, 'exact', 4, None), (False, 'quotient', None, 400000),
-                 (True, 'exact', 3, None), (True, 'quotient', None, 400000)]
-    for annot, mode, depth, cap in plans:
-        st, V, vc = e1.explore(_sys(annot), mode, max_depth=depth, cap=cap, jobs=jobs)
+        plans = [(False, 'exact', 4, None, True), (False, 'quotient', None, 250000, True),
+                 (True, 'exact', 3, None, True), (True, 'quotient', None, 150000, False)]
+    for annot, mode, depth, cap, tr in plans:
+        st, V, vc = e1.explore(_sys(annot, tr), mode, max_depth=depth, cap=cap, jobs=jobs)
         st.pop('sdata', None)
         st.pop('edges', None)
         st.update({'universe': 'U+ (extension annotates external lemma/form)' if annot else 'U- (no annotations)',
